@@ -58,3 +58,20 @@ Proof.
   intros H. unfold C07_okb, C07_gen_okb in H. apply andb_true_iff in H. destruct H as [H1 H2].
   split; [apply negb_true_iff; exact H1|]. exact (hasse_okb_sound cfgs v _ H2).
 Qed.
+
+(* the same for ANY wildcard / ignore_case setting (the harness runs the checker at ignore_case = false for
+   hierarchies built under a caller-chosen case-sensitive mapper) *)
+Lemma C07_gen_okb_sound w ic cfgs v :
+  C07_gen_okb w ic true cfgs (Good v) = true ->
+  some_mutualb w ic cfgs = false /\
+  hasse_spec cfgs v (fun i j => mget (mat_of (ref_sub w ic) cfgs) i j).
+Proof.
+  intros H. unfold C07_gen_okb in H. apply andb_true_iff in H. destruct H as [H1 H2].
+  split; [apply negb_true_iff; exact H1|]. exact (hasse_okb_sound cfgs v _ H2).
+Qed.
+
+(* a refusal is accepted only when two patterns really embed into each other *)
+Lemma C07_gen_okb_refusal w ic full cfgs e :
+  C07_gen_okb w ic full cfgs (Bad e) = true -> some_mutualb w ic cfgs = true.
+Proof. unfold C07_gen_okb. destruct e; intros H; try discriminate; exact H. Qed.
+
